@@ -445,6 +445,89 @@ pub fn big_batch_case(rng: &mut Rng, id: String, max: usize, big_len: usize) -> 
     case
 }
 
+/// The same contract through the ipc-level wrapper `ipc::IpcReceiverSet` (typed receivers, `IpcSelectionResult`, `OpaqueIpcMessage::to`):
+/// several members with long backlogs queued before the first select, some of them already without senders, so that one
+/// batch holds many messages and closures in between; per member: every message once, in order, then one closure.
+pub fn ipc_level_case(rng: &mut Rng, id: String) -> Case {
+    use ipc_channel::ipc::{self, IpcReceiverSet, IpcSelectionResult};
+    let mut case = Case::new(id.clone());
+    let k = 2 + rng.below(4) as usize;
+    let mut set = IpcReceiverSet::new().unwrap();
+    let mut ops: Vec<String> = Vec::new();
+    let mut txs = Vec::new();
+    let mut ids = Vec::new();
+    let mut expect: Vec<Vec<String>> = vec![Vec::new(); k];
+    let mut tag = 0u64;
+    for i in 0..k {
+        let (tx, rx) = ipc::channel::<u64>().unwrap();
+        ops.push(format!("new {}", i));
+        let n = [3usize, 10, 25, 40][rng.below(4) as usize];
+        for _ in 0..n {
+            tag += 1;
+            tx.send(tag).unwrap();
+            ops.push(format!("send {} {}", i, tag));
+            expect[i].push(tag.to_string());
+        }
+        ids.push(set.add(rx).unwrap());
+        ops.push(format!("add {}", i));
+        txs.push(Some(tx));
+    }
+    for i in 0..k {
+        if rng.below(2) == 0 {
+            txs[i] = None;
+            ops.push(format!("dropsender {}", i));
+            expect[i].push("c".into());
+        }
+    }
+    let mut seen: Vec<Vec<String>> = vec![Vec::new(); k];
+    let mut rounds = 0;
+    // (the in-process transport may hand out one event per call)
+    let max_rounds = expect.iter().map(|e| e.len()).sum::<usize>() + 8;
+    while (0..k).any(|i| seen[i].len() < expect[i].len()) && rounds < max_rounds && case.oracle.is_none() {
+        rounds += 1;
+        arm(&id, &ops, 8);
+        let r = set.select();
+        disarm();
+        match r {
+            Ok(rs) => {
+                if rs.is_empty() {
+                    case.fail("select returned no event although something was pending".into());
+                }
+                for r in rs {
+                    match r {
+                        IpcSelectionResult::MessageReceived(id, m) => match ids.iter().position(|x| *x == id) {
+                            Some(i) => match m.to::<u64>() {
+                                Ok(t) => seen[i].push(t.to_string()),
+                                Err(_) => case.fail("a message reported by select does not decode".into()),
+                            },
+                            None => case.fail(format!("event for unknown id {}", id)),
+                        },
+                        IpcSelectionResult::ChannelClosed(id) => match ids.iter().position(|x| *x == id) {
+                            Some(i) => seen[i].push("c".into()),
+                            None => case.fail(format!("closed event for unknown id {}", id)),
+                        },
+                    }
+                }
+                ops.push("select".into());
+            },
+            Err(e) => case.fail(format!("select failed: {:?}", e)),
+        }
+    }
+    for i in 0..k {
+        if seen[i] != expect[i] && case.oracle.is_none() {
+            case.fail(format!("member {} reported {:?} where {:?} is due (ipc-level receiver set)", i, &seen[i][..seen[i].len().min(12)], &expect[i][..expect[i].len().min(12)]));
+        }
+    }
+    drop(txs);
+    let per: Vec<String> = (0..k).map(|i| format!("m{}={}", i, if seen[i].is_empty() { "-".into() } else { seen[i].join(",") })).collect();
+    let idl: Vec<String> = ids.iter().enumerate().map(|(i, v)| format!("{}:{}", i, v)).collect();
+    set_pair(&mut case, &ops, &per, &idl);
+    case.nontrivial = true;
+    case.key = format!("ipcset:{}:{}", k, ops.len());
+    case.tags.push("api=ipc::IpcReceiverSet".into());
+    case
+}
+
 pub fn run(args: &[String]) {
     let sys_arg = arg_u64(args, "--sys", 4608) as usize;
     ip::SPOOF_SNDBUF.store(sys_arg, Ordering::SeqCst);
@@ -462,6 +545,10 @@ pub fn run(args: &[String]) {
     for i in 0..n {
         let nm = if i % 5 == 4 { 30 } else { 6 };
         seq_case(&mut rng, format!("set-{}", i), max, nm).emit();
+    }
+    // the ipc-level wrapper
+    for j in 0..(if thorough { 60 } else { 8 }) {
+        ipc_level_case(&mut rng, format!("set-ipc-{}", j)).emit();
     }
     // a batch that is large in bytes
     let lens: &[usize] = if thorough { &[1 << 20, 3 << 20, 5 << 20, 9 << 20, 17 << 20] } else { &[1 << 20, 5 << 20, 9 << 20] };
